@@ -130,6 +130,79 @@ func c36(c *Ctx) {
 			}
 		}
 	})
+	c.Ob("per-call-report-hook", "R3", "picker.Pick: unless out-of-band reporting is configured, the pick result's Done is replaced by a closure that hands a non-nil ORCA report from the call to OnLoadReport of the endpoint that was picked (the captured one whose picker produced the result) and then calls the child's Done; a failed child pick is returned as failure", 5, func() {
+		pk := c.fn(wrrbp, "picker.Pick")
+		fDone := c.field("balancer", "PickResult", "Done")
+		var hook *ssa.MakeClosure
+		for _, st := range storesToField(pk, fDone) {
+			mc, ok := st.Val.(*ssa.MakeClosure)
+			if !c.Expect(ok, st, pk, "done-is-a-closure", "Done is replaced by something other than the reporting closure") {
+				continue
+			}
+			hook = mc
+			c.MustFact(st, "hook-only-without-out-of-band-reports", Truth(FieldLoad(c.field(wrrbp, "lbConfig", "EnableOOBLoadReport")), false))
+		}
+		if !c.Expect(hook != nil, nil, pk, "done-hook-installed", "per-call load reports are not hooked into the pick result") {
+			return
+		}
+		// installed on every successful path without OOB
+		c.EnteredOnlyWhenExcept(returnsWhere(pk, func(r *ssa.Return) bool { return ConstNil(r.Results[1]) })[0].Block(), "hook-skipped-only-with-out-of-band-reports",
+			func(p *ssa.BasicBlock) bool { return len(storesToFieldInBlock(p, fDone)) > 0 }, Truth(FieldLoad(c.field(wrrbp, "lbConfig", "EnableOOBLoadReport")), true))
+		c.ErrorsPropagate(pk, "Pick", nil)
+		g := hook.Fn.(*ssa.Function)
+		rep := one(c, "OnLoadReport call in the Done hook", callsIn(g, Callee(wrrbp, ew+".OnLoadReport")))
+		load := func(v ssa.Value) bool {
+			e, ok := v.(*ssa.Extract)
+			if !ok || e.Index != 0 {
+				return false
+			}
+			ta, ok := e.Tuple.(*ssa.TypeAssert)
+			return ok && FieldLoad(c.field("balancer", "DoneInfo", "ServerLoad"))(ta.X)
+		}
+		c.ArgIs(rep, 1, "reports-the-call's-load", load)
+		c.MustFact(rep, "only-a-non-nil-report", NotNil(load))
+		// skipped only for a missing / foreign / nil report
+		c.EnteredOnlyWhenExcept(rep.Block().Succs[0], "report-skipped-only-when-absent", func(p *ssa.BasicBlock) bool { return p == rep.Block() },
+			IsNil(load), Truth(func(v ssa.Value) bool { e, ok := v.(*ssa.Extract); return ok && e.Index == 1 }, false))
+		// the endpoint is the picked one: the captured cell is the one whose picker field produced the result
+		recv := rep.Common().Args[0]
+		okEP := false
+		var cell ssa.Value
+		if u, ok := recv.(*ssa.UnOp); ok {
+			if fa, ok := u.X.(*ssa.FieldAddr); ok {
+				if fv, ok := fa.X.(*ssa.FreeVar); ok {
+					for i, v := range g.FreeVars {
+						if v == fv {
+							cell = hook.Bindings[i]
+						}
+					}
+				}
+			}
+		}
+		if cell != nil {
+			for _, ci := range callsIn(pk, MethodNamed("Pick", nil)) {
+				if u, ok := ci.Common().Value.(*ssa.UnOp); ok {
+					if fa, ok := u.X.(*ssa.FieldAddr); ok && fa.X == cell {
+						okEP = true
+					}
+				}
+			}
+		}
+		c.Expect(okEP, rep, g, "report-goes-to-the-picked-endpoint", "the load report is credited to an endpoint other than the one whose picker served the call")
+		// the child's Done still runs
+		nOld := 0
+		for _, b := range g.Blocks {
+			for _, in := range b.Instrs {
+				if call, ok := in.(*ssa.Call); ok && !call.Call.IsInvoke() && call.Call.StaticCallee() == nil {
+					if _, isB := call.Call.Value.(*ssa.Builtin); !isB {
+						nOld++
+						c.MustFact(in, "child-done-called-when-set", NotNil(AnyV))
+					}
+				}
+			}
+		}
+		c.Expect(nOld == 1, nil, g, "child-done-chained", "the child picker's Done callback is not called by the hook")
+	})
 	c.Ob("scheduler-fallback", "R7", "newScheduler: nil for n==0; round robin on n==1, zeros >= n-1, all scaled weights equal; EDF on no other arm; zero weights get the scaled mean of the non-zero ones", 12, func() {
 		f := c.fn(wrrbp, "picker.newScheduler")
 		epw := CallRes(Callee(wrrbp, "picker.endpointWeights"), 0)
